@@ -217,7 +217,12 @@ def histories(rng, n, lo=5, hi=40, n_long=None, **kw):
     queue-internal thresholds (compaction, resizing, batch limits) are only crossed by long histories."""
     out = []
     n_burst = kw.pop("n_burst", max(3, n // 400))
+    off_price = "at_level_price" not in kw
     for i in range(n):
+        if off_price:
+            # a third of the histories hold orders whose own price field differs from the level's (add_order never checks it),
+            # with re-pricings aimed at the level's price and at the orders' own prices
+            kw["at_level_price"] = (i % 3 != 1)
         g = lvl.HistGen(rng, big=(i % 12 == 0), **kw)
         g.upd_heavy = (i % 9 == 4)
         out.append((g.price, g.history(rng.randint(lo, hi) * (2 if g.upd_heavy else 1))))
